@@ -1451,7 +1451,9 @@ def concat_collocations(collocations):
     for obj in collocations:
         for group, data in get_xarray_groups(obj).items():
             if group == "Collocations":
-                # Correct the indices:
+                # Correct the indices (in a copy, the pairs of the given
+                # datasets must stay as they are):
+                data = data.copy(deep=True)
                 data["Collocations/pairs"][0, :] += primary_size
                 data["Collocations/pairs"][1, :] += secondary_size
                 data = data.drop_vars("Collocations/group")
